@@ -85,9 +85,10 @@ Proof.
     intros j k Hj Hk. rewrite Hc2, Hc1 by auto.
     cbn [length]. rewrite sumN_shift.
     unfold contrib_motif at 2. cbn [nth].
-    rewrite (sumN_ext (fun i => contrib_motif (s :: data) (a :: act) (st :: starts) j k (S i))
-                      (contrib_motif data act starts j k)) by (intros i _; reflexivity).
-    lia.
+    assert (E : sumN (fun i => contrib_motif (s :: data) (a :: act) (st :: starts) j k (S i)) (length data)
+                = sumN (contrib_motif data act starts j k) (length data))
+      by (apply sumN_ext; intros i _; reflexivity).
+    rewrite E. lia.
 Qed.
 
 Theorem motif_of_eq K W data act starts :
